@@ -1,5 +1,6 @@
 (* C20 - xargs -I: one run per input line, every occurrence replaced by the whole line. *)
 Require Import Batch BatchProofs XArgs XArgsProofs XArgsTop XReplace XReplaceProofs.
+Require Import XRead XReadSpecProofs.
 From Coq Require Import List NArith Arith Bool.
 Import ListNotations.
 
@@ -58,6 +59,17 @@ Print Assumptions C20_I_with_n1.
 Theorem C20_one_mode : forall os, one_mode (batch_mode os).
 Proof. exact batch_mode_one_mode. Qed.
 Print Assumptions C20_one_mode.
+
+(* the reader under -I (XRead with whole lines): a non-empty line free of quotes and backslashes that does not begin with a
+   blank is one argument, the entire line - blanks inside it do not split it - and it ends its line; an empty line is none *)
+Theorem C20_entire_line : forall c line rest, is_ws c = false -> forallb line_char (c :: line) = true ->
+  XRead.flat_next true (c :: line ++ 10 :: rest) = XRead.Ok (Some (c :: line, true, rest)).
+Proof. exact whole_line_one_argument. Qed.
+Print Assumptions C20_entire_line.
+
+Theorem C20_empty_line : forall rest, XRead.flat_next true (10 :: rest) = XRead.flat_next true rest.
+Proof. exact whole_line_empty. Qed.
+Print Assumptions C20_empty_line.
 
 (* non-vacuity: R = "{}", line "a b", argument "x{}y{}{" *)
 Example C20_witness :
